@@ -1,5 +1,6 @@
 """Property -> rule families.  Each entry is a list of callables taking the Run context."""
-import rf_alloc, rf_state, rf_tables, rf_sig
+import rf_alloc, rf_state, rf_tables, rf_sig, rf_union, rf_flow
+from lib import facts as F
 
 
 def c17_rf1(run):
@@ -44,9 +45,66 @@ def c20_rf8(run):
     rf_sig.rf8_control(run)
 
 
+TEXT_IO = ('MIR_output', 'MIR_output_module', 'MIR_output_item', 'MIR_output_insn', 'MIR_output_op', 'MIR_output_str',
+           'MIR_scan_string')
+BIN_IO = ('MIR_write', 'MIR_write_module', 'MIR_write_with_func', 'MIR_write_module_with_func', 'MIR_read', 'MIR_read_with_func')
+
+
+def rf6_control(run):
+    sh = run.shadow()
+    rf_union.rf6(sh, run.control_tu('rf6_control.c'), level='incomplete')
+    got = {(f.func, 'incomplete' in f.msg) for f in sh.findings}
+    run.control('RF6', 'rf6_control.c', got == {('print_item', True), ('print_op', False)})
+
+
+def rf20_control(run):
+    sh = run.shadow()
+    rf_flow.rf20(sh, [run.control_tu('rf20_control.c')])
+    run.control('RF20', 'rf20_control.c', {f.func for f in sh.findings} == {'stuck'})
+
+
+def io_funcs(run, entries):
+    tu = run.tu('mir')
+    missing = [e for e in entries if e not in tu.funcs]
+    if missing:
+        raise F.AnalysisBroken('entry points not found in mir.c: %s' % ', '.join(missing))
+    return tu.reachable(entries)
+
+
+def c10_rf6(run):
+    fs = io_funcs(run, TEXT_IO)
+    n = rf_union.rf6(run, 'mir', functions=fs, level='incomplete')
+    run.min_instances('RF6', 60)
+    rf6_control(run)
+    rf_flow.rf20(run, ['mir'], functions=fs)
+    run.min_instances('RF20', 5)
+    rf20_control(run)
+
+
+def c11_rf6(run):
+    fs = io_funcs(run, BIN_IO)
+    rf_union.rf6(run, 'mir', functions=fs, level='incomplete')
+    run.min_instances('RF6', 40)
+    rf6_control(run)
+    rf_flow.rf20(run, ['mir'], functions=fs)
+    run.min_instances('RF20', 5)
+    rf20_control(run)
+
+
+def c20_rf6(run):
+    rf_union.rf6(run, 'mir2c', level='incomplete')
+    run.min_instances('RF6', 40)
+    rf6_control(run)
+    rf_flow.rf20(run, ['mir2c'])
+    run.min_instances('RF20', 5)
+    rf20_control(run)
+
+
 PLAN = {
+    'C10': [c10_rf6],
+    'C11': [c11_rf6],
     'C02': [c02_rf8],
-    'C20': [c20_rf8],
+    'C20': [c20_rf8, c20_rf6],
     'C15': [c15_rf17],
     'C18': [c18_rf5],
     'C17': [c17_rf1, c17_rf3],
